@@ -97,6 +97,22 @@ func main() {
 				f(c, r)
 			}()
 		}
+		if *tier == "thorough" && err == nil && *only == "" && os.Getenv("VERIF_NO_CONTROLS") == "" {
+			base := map[string]bool{}
+			for _, o := range r.Obls {
+				if o.Verdict != "ok" {
+					base[o.Key] = true
+				}
+			}
+			outs := runControls(*repo, *tier, id, base)
+			counts := map[string]int{}
+			for _, o := range outs {
+				counts[o.Kind+":"+o.Outcome]++
+				fmt.Printf("control %-8s %-11s %-60s %s %s\n", o.Kind, o.Outcome, o.Name, o.Obligation, o.Detail)
+			}
+			r.Extra["controls"] = outs
+			r.Extra["controls_summary"] = counts
+		}
 		if *only != "" {
 			var keep []*Obligation
 			for _, o := range r.Obls {
